@@ -2,7 +2,6 @@ package keeper
 
 import (
 	"context"
-	"strings"
 
 	sdk "github.com/cosmos/cosmos-sdk/types"
 	govtypes "github.com/cosmos/cosmos-sdk/x/gov/types"
@@ -15,7 +14,7 @@ import (
 var _ types.MsgServer = &Keeper{}
 
 func (k *Keeper) CallContract(goCtx context.Context, msg *fxevmtypes.MsgCallContract) (*fxevmtypes.MsgCallContractResponse, error) {
-	if !strings.EqualFold(k.GetAuthority().String(), msg.Authority) {
+	if k.GetAuthority().String() != msg.Authority {
 		return nil, govtypes.ErrInvalidSigner.Wrapf("invalid authority, expected %s, got %s", k.GetAuthority().String(), msg.Authority)
 	}
 	ctx := sdk.UnwrapSDKContext(goCtx)
